@@ -69,16 +69,17 @@ structure SameShape (s s' : State) : Prop where
   nLayers : s'.nLayers = s.nLayers
   attached : s'.attached = s.attached
   handles : s'.handles = s.handles
+  adt : s'.adt = s.adt
 
-theorem SameShape.refl (s : State) : SameShape s s := ⟨rfl, rfl, rfl, rfl, rfl, rfl, rfl, rfl⟩
+theorem SameShape.refl (s : State) : SameShape s s := ⟨rfl, rfl, rfl, rfl, rfl, rfl, rfl, rfl, rfl⟩
 
 theorem SameShape.trans {a b c : State} (h1 : SameShape a b) (h2 : SameShape b c) : SameShape a c :=
   ⟨h2.impl.trans h1.impl, h2.dims.trans h1.dims, h2.cap.trans h1.cap, h2.next.trans h1.next,
    h2.layers.trans h1.layers, h2.nLayers.trans h1.nLayers, h2.attached.trans h1.attached,
-   h2.handles.trans h1.handles⟩
+   h2.handles.trans h1.handles, h2.adt.trans h1.adt⟩
 
 theorem WF.of_sameShape {s s' : State} (h : WF s) (e : SameShape s s') : WF s' := by
-  obtain ⟨e1, e2, _, e3, e4, e5, e6, e7⟩ := e
+  obtain ⟨e1, e2, _, e3, e4, e5, e6, e7, _⟩ := e
   constructor
   · rw [e3]; exact h.next_pos
   · rw [e3, e4, e5]; exact h.data_lt
@@ -131,13 +132,13 @@ theorem WF_init (impl : Impl) (dims : List Nat) (cap : Nat) : WF (init impl dims
 theorem sameShape_cellAttrWrite (s : State) (n : String) (c : Coord) (v : Int) :
     SameShape s (cellAttrWrite s n c v) := by
   unfold cellAttrWrite
-  split <;> exact ⟨rfl, rfl, rfl, rfl, rfl, rfl, rfl, rfl⟩
+  split <;> exact ⟨rfl, rfl, rfl, rfl, rfl, rfl, rfl, rfl, rfl⟩
 
 theorem sameShape_writeEmpty (s : State) (c : Coord) (v : Int) : SameShape s (writeEmpty s c v) := by
   unfold writeEmpty
   split
   · exact sameShape_cellAttrWrite ..
-  · exact ⟨rfl, rfl, rfl, rfl, rfl, rfl, rfl, rfl⟩
+  · exact ⟨rfl, rfl, rfl, rfl, rfl, rfl, rfl, rfl, rfl⟩
 
 theorem sameShape_afterLeave (s : State) (c : Coord) : SameShape s (afterLeave s c) := by
   unfold afterLeave
@@ -153,7 +154,7 @@ theorem sameShape_layerSet (s : State) (l : Nat) (c : Coord) (v : Int) :
   unfold layerSet
   split
   · exact SameShape.refl s
-  · split <;> exact ⟨rfl, rfl, rfl, rfl, rfl, rfl, rfl, rfl⟩
+  · split <;> exact ⟨rfl, rfl, rfl, rfl, rfl, rfl, rfl, rfl, rfl⟩
 
 theorem sameShape_cellSet (s : State) (n : String) (c : Coord) (v : Int) :
     SameShape s (cellSet s n c v).1 := by
@@ -167,12 +168,32 @@ theorem sameShape_cellSet (s : State) (n : String) (c : Coord) (v : Int) :
   · split
     · exact SameShape.refl s
     · simp only
-      split <;> exact ⟨rfl, rfl, rfl, rfl, rfl, rfl, rfl, rfl⟩
+      split <;> exact ⟨rfl, rfl, rfl, rfl, rfl, rfl, rfl, rfl, rfl⟩
+
+theorem sameShape_cellSet2 (s : State) (l : Nat) (c : Coord) (w : WVal) :
+    SameShape s (cellSet2 s l c w).1 := by
+  unfold cellSet2
+  split
+  · exact SameShape.refl s
+  · exact sameShape_layerSet ..
 
 theorem sameShape_setCells (s : State) (l : Nat) (v : Int) (cond : Option (Int → Bool)) :
     SameShape s (setCells s l v cond).1 := by
   unfold setCells
-  split <;> exact ⟨rfl, rfl, rfl, rfl, rfl, rfl, rfl, rfl⟩
+  split <;> exact ⟨rfl, rfl, rfl, rfl, rfl, rfl, rfl, rfl, rfl⟩
+
+theorem sameShape_setFrom (s : State) (l : Nat) (hd : Nat) (cond : Option (Int → Bool)) :
+    SameShape s (setFrom s l hd cond).1 := by
+  unfold setFrom
+  split
+  · exact SameShape.refl s
+  · split
+    · exact SameShape.refl s
+    · split
+      · exact SameShape.refl s
+      · split
+        · exact SameShape.refl s
+        · exact ⟨rfl, rfl, rfl, rfl, rfl, rfl, rfl, rfl, rfl⟩
 
 theorem sameShape_modifyCell (s : State) (l : Nat) (c : Coord) (f : Option (Int → Int)) :
     SameShape s (modifyCell s l c f).1 := by
@@ -183,13 +204,26 @@ theorem sameShape_modifyCell (s : State) (l : Nat) (c : Coord) (f : Option (Int 
     · exact SameShape.refl s
     · split
       · exact SameShape.refl s
-      · split <;> exact ⟨rfl, rfl, rfl, rfl, rfl, rfl, rfl, rfl⟩
+      · split <;> exact ⟨rfl, rfl, rfl, rfl, rfl, rfl, rfl, rfl, rfl⟩
+
+theorem sameShape_modifyCellU (s : State) (l : Nat) (c : Coord) (op : UOp) (x : Val) :
+    SameShape s (modifyCellU s l c op x).1 := by
+  unfold modifyCellU
+  split
+  · exact SameShape.refl s
+  · split
+    · exact SameShape.refl s
+    · split
+      · exact SameShape.refl s
+      · split
+        · exact SameShape.refl s
+        · exact sameShape_modifyCell ..
 
 theorem sameShape_hset (s : State) (h : Nat) (c : Coord) (v : Int) : SameShape s (hset s h c v).1 := by
   unfold hset
   split
   · exact SameShape.refl s
-  · split <;> exact ⟨rfl, rfl, rfl, rfl, rfl, rfl, rfl, rfl⟩
+  · split <;> exact ⟨rfl, rfl, rfl, rfl, rfl, rfl, rfl, rfl, rfl⟩
 
 theorem sameShape_place (s : State) (a : Nat) (c : Coord) : SameShape s (place s a c).1 := by
   unfold place
@@ -200,14 +234,14 @@ theorem sameShape_place (s : State) (a : Nat) (c : Coord) : SameShape s (place s
     · split
       · exact SameShape.refl s
       · exact SameShape.trans (b := { s with agents := s.agents ++ [(a, c)] })
-          ⟨rfl, rfl, rfl, rfl, rfl, rfl, rfl, rfl⟩ (sameShape_writeEmpty ..)
+          ⟨rfl, rfl, rfl, rfl, rfl, rfl, rfl, rfl, rfl⟩ (sameShape_writeEmpty ..)
 
 theorem sameShape_remove (s : State) (a : Nat) : SameShape s (remove s a).1 := by
   unfold remove
   split
   · exact SameShape.refl s
   · exact SameShape.trans (b := { s with agents := s.agents.filter (·.1 ≠ a) })
-      ⟨rfl, rfl, rfl, rfl, rfl, rfl, rfl, rfl⟩ (sameShape_afterLeave ..)
+      ⟨rfl, rfl, rfl, rfl, rfl, rfl, rfl, rfl, rfl⟩ (sameShape_afterLeave ..)
 
 theorem sameShape_move (s : State) (a : Nat) (c : Coord) : SameShape s (move s a c).1 := by
   unfold move
@@ -220,10 +254,10 @@ theorem sameShape_move (s : State) (a : Nat) (c : Coord) : SameShape s (move s a
       · exact SameShape.refl s
       · have h1 : SameShape s (afterLeave { s with agents := s.agents.filter (·.1 ≠ a) } c0) :=
           SameShape.trans (b := { s with agents := s.agents.filter (·.1 ≠ a) })
-            ⟨rfl, rfl, rfl, rfl, rfl, rfl, rfl, rfl⟩ (sameShape_afterLeave ..)
+            ⟨rfl, rfl, rfl, rfl, rfl, rfl, rfl, rfl, rfl⟩ (sameShape_afterLeave ..)
         refine SameShape.trans h1 (SameShape.trans (b := { afterLeave { s with agents := s.agents.filter (·.1 ≠ a) } c0 with
           agents := (afterLeave { s with agents := s.agents.filter (·.1 ≠ a) } c0).agents ++ [(a, c)] }) ?_ (sameShape_writeEmpty ..))
-        exact ⟨rfl, rfl, rfl, rfl, rfl, rfl, rfl, rfl⟩
+        exact ⟨rfl, rfl, rfl, rfl, rfl, rfl, rfl, rfl, rfl⟩
 
 /-! ### ops that change the tables -/
 
@@ -331,8 +365,8 @@ theorem WF.attachName {s s' : State} (h : WF s) (lid : Nat) (hlt : lid < s.nLaye
     · exact h.att_free hi n' l' h1
     · exact hfree hi
 
-theorem WF_newLayer {s : State} (h : WF s) (n : String) (dims : List Nat) (d : Int) :
-    WF (newLayer s n dims d).1 := by
+theorem WF_newLayer {s : State} (h : WF s) (n : String) (dims : List Nat) (dt : DType) (d : Int) :
+    WF (newLayer s n dims dt d).1 := by
   unfold newLayer
   split
   · exact h
@@ -360,7 +394,7 @@ theorem attachCheck_none {s : State} {l : Layer} (h : attachCheck s l = none) :
         simp only [State.named?, Option.isSome_iff_ne_none, ne_eq, Decidable.not_not] at h1
         exact ⟨h1, by simpa using h2, fun e => absurd e hi⟩
 
-theorem WF_create {s : State} (h : WF s) (n : String) (d : Int) : WF (create s n d).1 := by
+theorem WF_create {s : State} (h : WF s) (n : String) (dt : DType) (d : Int) : WF (create s n dt d).1 := by
   unfold create
   split
   · exact h
@@ -368,7 +402,7 @@ theorem WF_create {s : State} (h : WF s) (n : String) (d : Int) : WF (create s n
     obtain ⟨hnone, _, hfree⟩ := attachCheck_none hc
     simp only at hnone hfree
     -- first the allocation, then the registration
-    let s1 : State := { s with heap := upd s.heap s.next (fun _ => d), next := s.next + 1,
+    let s1 : State := { s with heap := upd s.heap s.next (fun _ => d), adt := upd s.adt s.next dt, next := s.next + 1,
                                 layers := upd s.layers s.nLayers ⟨n, s.dims, s.next⟩, nLayers := s.nLayers + 1 }
     have h1 : WF s1 := h.alloc ⟨n, s.dims, s.next⟩ rfl rfl rfl rfl rfl rfl rfl rfl
     have hl : s1.layers s.nLayers = ⟨n, s.dims, s.next⟩ := by simp [s1]
@@ -416,6 +450,59 @@ theorem WF_detach {s : State} (h : WF s) (n : String) : WF (detach s n).1 := by
     · exact h.legacy_data
     · intro hi n' l' hh; exact h.att_free hi n' l' (key n' l' hh)
 
+/-- re-point layer `lid` to a freshly allocated array (whatever its contents and dtype) -/
+theorem WF.repoint {s s' : State} (h : WF s) (lid : Nat) (hlt : lid < s.nLayers)
+    (e1 : s'.impl = s.impl) (e2 : s'.dims = s.dims) (e3 : s'.next = s.next + 1)
+    (e4 : s'.layers = upd s.layers lid { s.layers lid with data := s.next }) (e5 : s'.nLayers = s.nLayers)
+    (e6 : s'.attached = s.attached) (e7 : s'.handles = s.handles) : WF s' := by
+  constructor
+  · rw [e3]; omega
+  · intro l hl
+    rw [e5] at hl
+    rw [e3, e4]
+    simp only [upd]
+    split
+    · simp
+    · have := h.data_lt l hl; omega
+  · intro l1 l2 h1 h2 he
+    rw [e5] at h1 h2
+    rw [e4] at he
+    simp only [upd] at he
+    split at he <;> split at he
+    · omega
+    · have := h.data_lt l2 h2; simp at he; omega
+    · have := h.data_lt l1 h1; simp at he; omega
+    · exact h.data_inj l1 l2 h1 h2 he
+  · rw [e5, e6]; exact h.att_lt
+  · intro n' l' hh
+    rw [e6] at hh
+    rw [e4]
+    simp only [upd]
+    split
+    · next he => subst he; exact h.att_name n' _ hh
+    · exact h.att_name n' l' hh
+  · intro n' l' hh
+    rw [e6] at hh
+    rw [e4, e2]
+    simp only [upd]
+    split
+    · next he => subst he; exact h.att_dims n' _ hh
+    · exact h.att_dims n' l' hh
+  · intro hh a dd hl
+    rw [e7] at hl
+    have := h.handle_lt hh a dd hl
+    rw [e3]
+    omega
+  · intro hi l hl
+    rw [e1] at hi
+    rw [e5] at hl
+    rw [e4]
+    simp only [upd]
+    split
+    · have := h.next_pos; simp; omega
+    · exact h.legacy_data hi l hl
+  · rw [e1, e6]; exact h.att_free
+
 theorem WF_modifyCells {s : State} (h : WF s) (lid : Nat) (f : Option (Int → Int))
     (cond : Option (Int → Bool)) : WF (modifyCells s lid f cond).1 := by
   unfold modifyCells
@@ -425,41 +512,36 @@ theorem WF_modifyCells {s : State} (h : WF s) (lid : Nat) (f : Option (Int → I
     obtain ⟨hlt, rfl⟩ := layer?_some hl
     split
     · exact h
-    · constructor
-      · simp
-      · intro l hl
-        simp only [upd]
-        split
-        · simp
-        · have := h.data_lt l hl; omega
-      · intro l1 l2 h1 h2 he
-        simp only [upd] at he
-        split at he <;> split at he
-        · omega
-        · have := h.data_lt l2 h2; simp at he; omega
-        · have := h.data_lt l1 h1; simp at he; omega
-        · exact h.data_inj l1 l2 h1 h2 he
-      · exact h.att_lt
-      · intro n' l' hh
-        simp only [upd]
-        split
-        · next he => subst he; exact h.att_name n' _ hh
-        · exact h.att_name n' l' hh
-      · intro n' l' hh
-        simp only [upd]
-        split
-        · next he => subst he; exact h.att_dims n' _ hh
-        · exact h.att_dims n' l' hh
-      · intro hh a dd hl
-        have := h.handle_lt hh a dd hl
-        show a < s.next + 1
-        omega
-      · intro hi l hl
-        simp only [upd]
-        split
-        · have := h.next_pos; simp; omega
-        · exact h.legacy_data hi l hl
-      · exact h.att_free
+    · exact h.repoint lid hlt rfl rfl rfl rfl rfl rfl rfl
+
+theorem WF_modifyCellsT {s : State} (h : WF s) (lid : Nat) (f : Option (Int → Int))
+    (cond : Option (Int → Bool)) (rd : DType) : WF (modifyCellsT s lid f cond rd).1 := by
+  unfold modifyCellsT
+  split
+  · exact h
+  · next l hl =>
+    obtain ⟨hlt, rfl⟩ := layer?_some hl
+    split
+    · exact h
+    · exact h.repoint lid hlt rfl rfl rfl rfl rfl rfl rfl
+
+theorem WF_modifyU {s : State} (h : WF s) (lid : Nat) (op : UOp) (x : Val)
+    (cond : Option (Int → Bool)) : WF (modifyU s lid op x cond).1 := by
+  unfold modifyU
+  split
+  · exact h
+  · split
+    · exact h
+    · exact WF_modifyCellsT h ..
+
+theorem sameShape_setCellsV (s : State) (l : Nat) (x : Val) (cond : Option (Int → Bool)) :
+    SameShape s (setCellsV s l x cond).1 := by
+  unfold setCellsV
+  split
+  · exact SameShape.refl s
+  · split
+    · exact SameShape.refl s
+    · exact sameShape_setCells ..
 
 theorem WF_grab {s : State} (h : WF s) (hd : Nat) (lid : Nat) : WF (grab s hd lid).1 := by
   unfold grab
@@ -482,31 +564,74 @@ theorem WF_grab {s : State} (h : WF s) (hd : Nat) (lid : Nat) : WF (grab s hd li
     · exact h.legacy_data
     · exact h.att_free
 
+theorem WF_fromData {s : State} (h : WF s) (n : String) (hd : Nat) : WF (fromData s n hd).1 := by
+  unfold fromData
+  split
+  · exact h
+  · split
+    · exact h
+    · next a dims _ =>
+      split
+      · exact h
+      · exact h.alloc ⟨n, dims, s.next⟩ rfl rfl rfl rfl rfl rfl rfl rfl
+
+theorem sameShape_nbhdMask (s : State) (k : Nat) (geom : Option Bool) (torus : Bool) (c : Coord) (ic : Bool)
+    (r : Nat) : SameShape s (nbhdMask s k geom torus c ic r).1 := by
+  unfold nbhdMask
+  split
+  · exact SameShape.refl s
+  · split
+    · exact SameShape.refl s
+    · split
+      · exact SameShape.refl s
+      · exact ⟨rfl, rfl, rfl, rfl, rfl, rfl, rfl, rfl, rfl⟩
+
+theorem sameShape_gridSet (s : State) (n : String) : SameShape s (gridSet s n).1 := by
+  unfold gridSet
+  split
+  · exact SameShape.refl s
+  · split
+    · exact SameShape.refl s
+    · exact ⟨rfl, rfl, rfl, rfl, rfl, rfl, rfl, rfl, rfl⟩
+
 theorem WF_step {s : State} (h : WF s) (op : Op) : WF (step s op).1 := by
   cases op with
-  | create n d => exact WF_create h n d
-  | newLayer n dims d => exact WF_newLayer h n dims d
+  | create n dt d => exact WF_create h n dt (d.resolve dt)
+  | newLayer n dims dt d => exact WF_newLayer h n dims dt (d.resolve dt)
   | attach l => exact WF_attach h l
   | detach n => exact WF_detach h n
   | layerSet l c v => exact h.of_sameShape (sameShape_layerSet ..)
   | layerGet l c => exact h
   | cellSet n c v => exact h.of_sameShape (sameShape_cellSet ..)
   | cellGet n c => exact h
-  | setCells l v cond => exact h.of_sameShape (sameShape_setCells ..)
+  | cellSet2 l c w => exact h.of_sameShape (sameShape_cellSet2 ..)
+  | cellGet2 l c => exact h
+  | setCells l w cond =>
+    cases w with
+    | raw v => exact h.of_sameShape (sameShape_setCells ..)
+    | py x => exact h.of_sameShape (sameShape_setCellsV ..)
+  | setFrom l hd cond => exact h.of_sameShape (sameShape_setFrom ..)
   | modifyCells l f cond => exact WF_modifyCells h l f cond
+  | modifyT l f cond rd => exact WF_modifyCellsT h l f cond rd
+  | modifyU l op x cond => exact WF_modifyU h l op x cond
   | modifyCell l c f => exact h.of_sameShape (sameShape_modifyCell ..)
+  | modifyCellU l c op x => exact h.of_sameShape (sameShape_modifyCellU ..)
   | grab hd l => exact WF_grab h hd l
+  | fromData n hd => exact WF_fromData h n hd
   | hget hd c => exact h
   | hset hd c v => exact h.of_sameShape (sameShape_hset ..)
   | hdump hd => exact h
   | dump l => exact h
   | dumpName n => exact h
+  | dtype l => exact h
   | layerSelect l p => exact h
   | aggregate l k => exact h
   | place a c => exact h.of_sameShape (sameShape_place ..)
   | move a c => exact h.of_sameShape (sameShape_move ..)
   | remove a => exact h.of_sameShape (sameShape_remove ..)
   | empties => exact h
+  | nbhdMask k geom torus c ic r => exact h.of_sameShape (sameShape_nbhdMask ..)
+  | gridSet n => exact h.of_sameShape (sameShape_gridSet ..)
   | select ms oe conds exts save =>
     simp only [step]
     split
@@ -515,7 +640,7 @@ theorem WF_step {s : State} (h : WF s) (op : Op) : WF (step s op).1 := by
       · exact h
       · split
         · exact h
-        · exact h.of_sameShape ⟨rfl, rfl, rfl, rfl, rfl, rfl, rfl, rfl⟩
+        · exact h.of_sameShape ⟨rfl, rfl, rfl, rfl, rfl, rfl, rfl, rfl, rfl⟩
 
 theorem WF_run {s : State} (h : WF s) (ops : List Op) : WF (run s ops).1 := by
   induction ops generalizing s with
